@@ -1919,6 +1919,10 @@ func (ls *LState) GPCall(fn LGFunction, data LValue) error {
 }
 
 func (ls *LState) CallByParam(cp P, args ...LValue) error {
+	if cp.Protect && !ls.reg.hasRoom(len(args)+1) {
+		// the values are pushed before PCall is entered: its recover would not see their overflow
+		return newApiErrorS(ApiErrorRun, "registry overflow")
+	}
 	ls.Push(cp.Fn)
 	for _, arg := range args {
 		ls.Push(arg)
